@@ -1,3 +1,242 @@
 package checks
 
-func installObserver() {}
+// The transaction observer (hooks in /repo/fstxn, build tag verif): one
+// Monitor per server instance sees every transaction begin, lock
+// acquisition/release, inode allocation, commit and abort.
+
+import (
+	"fmt"
+	"runtime"
+	"strings"
+	"sync"
+	"sync/atomic"
+
+	"github.com/mit-pdos/go-nfsd/fstxn"
+)
+
+type txnState struct {
+	held      []uint64        // acquisition order
+	allocated map[uint64]bool // inode numbers this transaction allocated
+	gid       uint64
+}
+
+type LockViolation struct {
+	Kind   string // "order", "self"
+	Inum   uint64
+	Held   []uint64
+	Caller string
+}
+
+func (v LockViolation) String() string {
+	switch v.Kind {
+	case "self":
+		return fmt.Sprintf("a transaction requests the lock of inode %d, which it already holds (held: %v) at %s", v.Inum, v.Held, v.Caller)
+	}
+	return fmt.Sprintf("a transaction holding the locks of inodes %v requests inode %d, which is not larger (ascending order violated) at %s", v.Held, v.Inum, v.Caller)
+}
+
+type Monitor struct {
+	mu             sync.Mutex
+	txns           map[*fstxn.FsTxn]*txnState
+	Begun          int64
+	Aborts         int64
+	AbortsModified int64 // aborted transactions that had dirty buffers
+	Commits        int64
+	CommitsFailed  int64
+	MultiLock      int64 // acquisitions made while holding another lock (not a fresh allocation)
+	KnownKF1       int64 // order violations from the READDIRPLUS listing path (known finding KF1)
+	Violations     []LockViolation
+	CheckOrder     bool
+	// Yield, if set, is called at lock acquisition and commit points (schedule perturbation)
+	Yield func(point string)
+}
+
+var monitors sync.Map // *fstxn.FsState -> *Monitor
+
+func monitorFor(fs *fstxn.FsState) *Monitor {
+	if m, ok := monitors.Load(fs); ok {
+		return m.(*Monitor)
+	}
+	m, _ := monitors.LoadOrStore(fs, &Monitor{txns: map[*fstxn.FsTxn]*txnState{}})
+	return m.(*Monitor)
+}
+
+func dropMonitor(fs *fstxn.FsState) { monitors.Delete(fs) }
+
+type observer struct{}
+
+func installObserver() { fstxn.VerifObs = observer{} }
+
+func (observer) Begin(op *fstxn.FsTxn) {
+	m := monitorFor(op.Fs)
+	atomic.AddInt64(&m.Begun, 1)
+	if m.CheckOrder {
+		m.mu.Lock()
+		m.txns[op] = &txnState{allocated: map[uint64]bool{}}
+		m.mu.Unlock()
+	}
+}
+
+func callerOutsideFstxn() (string, bool) {
+	pcs := make([]uintptr, 16)
+	n := runtime.Callers(3, pcs)
+	frames := runtime.CallersFrames(pcs[:n])
+	var parts []string
+	kf1 := false
+	for {
+		f, more := frames.Next()
+		if strings.Contains(f.Function, "go-nfsd/") && !strings.Contains(f.Function, "verif") {
+			name := f.Function[strings.LastIndex(f.Function, "/")+1:]
+			parts = append(parts, name)
+			if name == "dir.Apply" {
+				kf1 = true
+			}
+		}
+		if !more || len(parts) >= 6 {
+			break
+		}
+	}
+	return strings.Join(parts, " <- "), kf1
+}
+
+func (observer) Acquire(op *fstxn.FsTxn, inum uint64) {
+	m := monitorFor(op.Fs)
+	if y := m.Yield; y != nil {
+		y("acquire")
+	}
+	if !m.CheckOrder {
+		return
+	}
+	m.mu.Lock()
+	defer m.mu.Unlock()
+	st := m.txns[op]
+	if st == nil {
+		return
+	}
+	if len(st.held) == 0 {
+		return
+	}
+	fresh := st.allocated[inum]
+	if !fresh {
+		m.MultiLock++
+	}
+	var max uint64
+	self := false
+	for _, h := range st.held {
+		if h > max {
+			max = h
+		}
+		if h == inum {
+			self = true
+		}
+	}
+	if self {
+		caller, _ := callerOutsideFstxn()
+		m.Violations = append(m.Violations, LockViolation{"self", inum, append([]uint64{}, st.held...), caller})
+		return
+	}
+	if inum < max && !fresh {
+		caller, kf1 := callerOutsideFstxn()
+		if kf1 {
+			m.KnownKF1++
+			return
+		}
+		m.Violations = append(m.Violations, LockViolation{"order", inum, append([]uint64{}, st.held...), caller})
+	}
+}
+
+func (observer) Acquired(op *fstxn.FsTxn, inum uint64) {
+	m := monitorFor(op.Fs)
+	if !m.CheckOrder {
+		return
+	}
+	m.mu.Lock()
+	if st := m.txns[op]; st != nil {
+		st.held = append(st.held, inum)
+	}
+	m.mu.Unlock()
+}
+
+func (observer) Release(op *fstxn.FsTxn, inum uint64) {
+	m := monitorFor(op.Fs)
+	if !m.CheckOrder {
+		return
+	}
+	m.mu.Lock()
+	if st := m.txns[op]; st != nil {
+		for i, h := range st.held {
+			if h == inum {
+				st.held = append(st.held[:i], st.held[i+1:]...)
+				break
+			}
+		}
+	}
+	m.mu.Unlock()
+}
+
+func (observer) Alloc(op *fstxn.FsTxn, inum uint64) {
+	m := monitorFor(op.Fs)
+	if !m.CheckOrder {
+		return
+	}
+	m.mu.Lock()
+	if st := m.txns[op]; st != nil {
+		st.allocated[inum] = true
+	}
+	m.mu.Unlock()
+}
+
+func (observer) Commit(op *fstxn.FsTxn, wait bool) {
+	m := monitorFor(op.Fs)
+	if y := m.Yield; y != nil {
+		y("commit")
+	}
+}
+
+func (observer) Committed(op *fstxn.FsTxn, ok bool) {
+	m := monitorFor(op.Fs)
+	atomic.AddInt64(&m.Commits, 1)
+	if !ok {
+		atomic.AddInt64(&m.CommitsFailed, 1)
+	}
+	m.done(op)
+}
+
+func (observer) Abort(op *fstxn.FsTxn, dirty uint64) {
+	m := monitorFor(op.Fs)
+	atomic.AddInt64(&m.Aborts, 1)
+	if dirty > 0 {
+		atomic.AddInt64(&m.AbortsModified, 1)
+	}
+	m.done(op)
+}
+
+// done forgets a finished transaction; locks it still holds at this point are released right after.
+func (m *Monitor) done(op *fstxn.FsTxn) {
+	if !m.CheckOrder {
+		return
+	}
+	// the transaction object is not reused; drop it once its locks are gone (Release is called after the hook)
+	m.mu.Lock()
+	if len(m.txns) > 4096 {
+		for k, st := range m.txns {
+			if len(st.held) == 0 && k != op {
+				delete(m.txns, k)
+			}
+		}
+	}
+	m.mu.Unlock()
+}
+
+// Unfinished returns the lock sets of transactions that still hold locks.
+func (m *Monitor) Unfinished() [][]uint64 {
+	m.mu.Lock()
+	defer m.mu.Unlock()
+	var out [][]uint64
+	for _, st := range m.txns {
+		if len(st.held) > 0 {
+			out = append(out, append([]uint64{}, st.held...))
+		}
+	}
+	return out
+}
